@@ -229,14 +229,21 @@ def r0Place (slots : List Row) (col row : Nat) (cell : Cell) : Outcome (List Row
     let cs := tgt.cells ++ List.replicate (col - tgt.cells.length) blankCell
     .ok (slots.set (row - 1) { tgt with cells := cs.set (col - 1) cell })
 
-def r0Cells (rowR : Nat) : Nat → List Cell → List Row → Outcome (List Row)
-  | _, [], slots => .ok slots
-  | i, c :: cs, slots =>
-    let (col, row) := if c.col = 0 then (i + 1, rowR) else (c.col, c.row)
+/-- the loop of `checkSheetR0(…, r0 = true)`: `i` is the index of the cell in the row, `prev`
+the column of the cell before it. A cell without reference goes to `prev + 1` (fact
+`r0RunningCol`; it used to go to its index `i + 1`). -/
+def r0CellsAux (running : Bool) (rowR : Nat) : Nat → Nat → List Cell → List Row → Outcome (List Row)
+  | _, _, [], slots => .ok slots
+  | i, prev, c :: cs, slots =>
+    let (col, row) :=
+      if c.col = 0 then (if running then prev + 1 else i + 1, rowR) else (c.col, c.row)
     match r0Place slots col row c with
-    | .ok slots' => r0Cells rowR (i + 1) cs slots'
+    | .ok slots' => r0CellsAux running rowR (i + 1) col cs slots'
     | .err => .err
     | .panic => .panic
+
+def r0Cells (rowR : Nat) (i : Nat) (cs : List Cell) (slots : List Row) : Outcome (List Row) :=
+  r0CellsAux Facts.C04.r0RunningCol rowR i 0 cs slots
 
 def lastRowNumOf (cells : List Cell) : Nat :=
   cells.foldl (fun n c => if c.col ≠ 0 ∧ c.row > n then c.row else n) 0
@@ -263,8 +270,12 @@ def r0Rows : List Row → List Row → Outcome (List Row)
     match slots[r.r - 1]? with
     | none => .panic
     | some tgt =>
-      -- `sheetData.Row[r0Row.R-1].R = r0Row.R`
-      match r0Cells r.r 0 r.cells (slots.set (r.r - 1) { tgt with r := r.r }) with
+      -- an empty slot without attributes takes the attributes of the row (fact
+      -- `r0KeepsRowAttrs`); then `sheetData.Row[r0Row.R-1].R = r0Row.R`
+      let tgt' : Row :=
+        if Facts.C04.r0KeepsRowAttrs && tgt.cells.isEmpty && !tgt.hidden then { r with cells := tgt.cells }
+        else tgt
+      match r0Cells r.r 0 r.cells (slots.set (r.r - 1) { tgt' with r := r.r }) with
       | .ok slots' => r0Rows rs slots'
       | .err => .err
       | .panic => .panic
